@@ -276,6 +276,71 @@ Proof. reflexivity. Qed.
 Lemma Valid_snoc_intro l f : Valid l -> seq f = next_of (fkind f) (sid f) l -> Valid (l ++ [f]).
 Proof. intros H1 H2. apply Valid_snoc. tauto. Qed.
 
+(* ---------- which phases allow which micro-step ---------- *)
+Ltac np_solve H :=
+  cbn in H; repeat match type of H with context [if ?b then _ else _] => destruct b eqn:? end;
+  try discriminate H; inversion H; subst; repeat split; eauto 8.
+
+Lemma np_idle ph m ph' : next_phase ph m = Some ph' ->
+  match m with MTarget _ | MPickNewest | MRead => ph = PIdle /\ ph' = PIdle | _ => True end.
+Proof. intros H. destruct m; try exact I; destruct ph; np_solve H. Qed.
+Lemma np_lock ph ph' : next_phase ph MLock = Some ph' -> ph = PIdle /\ ph' = PLocked.
+Proof. intros H. destruct ph; np_solve H. Qed.
+Lemma np_choose ph ph' : next_phase ph MChoose = Some ph' -> ph = PLocked /\ ph' = PChosen.
+Proof. intros H. destruct ph; np_solve H. Qed.
+Lemma np_logappend ph t ar ph' : next_phase ph (MLogAppend t ar) = Some ph' ->
+  ph = PChosen /\ ph' = PLogged false /\ is_cont t = true.
+Proof. intros H. destruct ph; np_solve H. Qed.
+Lemma np_sidecar ph ph' : next_phase ph MSidecar = Some ph' ->
+  (exists sc, ph = PLogged sc /\ ph' = PLogged true)
+  \/ (exists k sc nx, ph = PChild k sc nx /\ ph' = PChild k true nx).
+Proof. intros H. destruct ph; np_solve H. Qed.
+Lemma np_bcast ph ph' : next_phase ph MBcast = Some ph' ->
+  ph' = ph /\ ((exists sc, ph = PLogged sc) \/ ph = PAdvanced \/ (exists k sc nx, ph = PChild k sc nx) \/ ph = PTChosen).
+Proof. intros H. destruct ph; np_solve H. Qed.
+Lemma np_advance ph ph' : next_phase ph MAdvance = Some ph' -> ph = PLogged true /\ ph' = PAdvanced.
+Proof. intros H. destruct ph; np_solve H. Qed.
+Lemma np_unlock ph ph' : next_phase ph MUnlock = Some ph' ->
+  ph' = PIdle /\ (ph = PLocked \/ ph = PAdvanced \/ exists k, ph = PChild k true true).
+Proof. intros H. destruct ph; np_solve H. Qed.
+Lemma np_alloc ph ph' : next_phase ph MAlloc = Some ph' -> ph = PLocked /\ ph' = PAlloc.
+Proof. intros H. destruct ph; np_solve H. Qed.
+Lemma np_fixed ph n t ar ph' : next_phase ph (MLogAppendFixed n t ar) = Some ph' ->
+  is_cont t = true /\
+  ((ph = PAlloc /\ n = 0 /\ ph' = PChild 1 false false)
+   \/ (exists k sc nx, ph = PChild k sc nx /\ n = k /\ ph' = PChild (k + 1) false false)).
+Proof.
+  intros H. destruct ph; cbn in H;
+    repeat match type of H with context [if ?b then _ else _] => destruct b eqn:? end;
+    try discriminate H; inversion H; subst;
+    match goal with E : (_ && _)%bool = true |- _ => apply andb_true_iff in E; destruct E as [E1 E2]; apply N.eqb_eq in E1 end;
+    subst; split; eauto 10.
+Qed.
+Lemma np_index ph ph' : next_phase ph MIndexInsert = Some ph' ->
+  exists k sc nx, ph = PChild k sc nx /\ ph' = PChild k sc nx.
+Proof. intros H. destruct ph; np_solve H. Qed.
+Lemma np_setnext ph n ph' : next_phase ph (MSetNext n) = Some ph' ->
+  exists k sc nx, ph = PChild k sc nx /\ n = k /\ ph' = PChild k sc true.
+Proof.
+  intros H. destruct ph; cbn in H;
+    repeat match type of H with context [if ?b then _ else _] => destruct b eqn:? end;
+    try discriminate H; inversion H; subst.
+  match goal with E : (_ =? _) = true |- _ => apply N.eqb_eq in E end. subst. eauto 8.
+Qed.
+Lemma np_none ph m ph' : next_phase ph m = Some ph' ->
+  match m with MSetNextLocked _ | MUnknown => False | _ => True end.
+Proof. intros H. destruct m; try exact I; destruct ph; cbn in H; repeat match type of H with context [if ?b then _ else _] => destruct b end; discriminate H. Qed.
+Lemma np_sess ph t ph' : next_phase ph (MSessEmit t) = Some ph' -> ph = PIdle /\ ph' = PIdle /\ is_sess t = true.
+Proof. intros H. destruct ph; np_solve H. Qed.
+Lemma np_tasklock ph ph' : next_phase ph MTaskLock = Some ph' -> ph = PIdle /\ ph' = PTLocked.
+Proof. intros H. destruct ph; np_solve H. Qed.
+Lemma np_taskchoose ph ph' : next_phase ph MTaskChoose = Some ph' -> ph = PTLocked /\ ph' = PTChosen.
+Proof. intros H. destruct ph; np_solve H. Qed.
+Lemma np_taskappend ph t ph' : next_phase ph (MTaskAppend t) = Some ph' -> ph = PTChosen /\ ph' = PTLogged /\ is_task t = true.
+Proof. intros H. destruct ph; np_solve H. Qed.
+Lemma np_taskunlock ph ph' : next_phase ph MTaskUnlock = Some ph' -> ph = PTLogged /\ ph' = PIdle.
+Proof. intros H. destruct ph; np_solve H. Qed.
+
 (* ---------- the micro-steps, one by one ---------- *)
 Ltac proj := cbn [s_log s_side s_next s_index s_fresh s_mu s_tcnt s_tmu s_procs set_proc set_store
                   set_task p_rem p_ph p_cid p_seq p_last p_child p_sess p_cnt pop pop_same aborted abort].
@@ -297,7 +362,7 @@ Section Step.
   Hypothesis Hwr : wf_from ph' r = true.
 
   Lemma Hus_tail : uses_sess r = true -> uses_sess (p_rem p) = true.
-  Proof. rewrite Hr. apply uses_sess_tail. Qed.
+  Proof using All. rewrite Hr. apply uses_sess_tail. Qed.
 
   (* an idle actor moves on without touching anything shared (MTarget, MPickNewest, MRead, MBcast of a task) *)
   Lemma idle_local_step st' p' :
@@ -308,7 +373,7 @@ Section Step.
     p_rem p' = r -> p_ph p' = ph' -> p_sess p' = p_sess p -> p_cnt p' = p_cnt p ->
     (tholds (p_ph p) = true -> p_seq p' = p_seq p) ->
     Inv st'.
-  Proof.
+  Proof using All.
     intros Hh Hsame Hprocs Hl Hn Hf Hmu Htm Htc Hr' Hph' Hse Hcn Hsq.
     apply (nonholder_quiet_step st st' a p p' Iv Hp Hh); try assumption.
     - left. split; [exact Hmu|]. rewrite Hph', Hsame. exact Hh.
@@ -321,14 +386,14 @@ Section Step.
   Qed.
 
   Lemma busy_is_me c : holds (p_ph p) = true -> busy st c -> busy_on p c.
-  Proof.
+  Proof using All.
     intros Hh [b [pb [Hb Hbz]]].
     assert (b = a) by (apply (holder_unique st b a pb p Iv Hb Hp (busy_on_holds _ _ Hbz) Hh)).
     subst b. rewrite Hp in Hb. inversion Hb. subst pb. exact Hbz.
   Qed.
 
   Lemma mu_is_me : holds (p_ph p) = true -> s_mu st = Some a.
-  Proof. apply (i_lock _ Iv _ _ Hp). Qed.
+  Proof using All. apply (i_lock _ Iv _ _ Hp). Qed.
 
   (* the owner moves on without touching the log or the counters (MSidecar, MBcast, MIndexInsert,
      MAlloc, MUnlock, early return) *)
@@ -343,7 +408,7 @@ Section Step.
     p_sess p' = p_sess p -> p_cnt p' = p_cnt p ->
     cont_ok st' p' -> (forall c, busy_on p c -> busy_on p' c) ->
     Inv st'.
-  Proof.
+  Proof using All.
     intros Hh Hprocs Hl Hn Hf Hmu Htm Htc Hwf' Hth Hus' Hse Hcn Hco Hbz.
     assert (Hc : forall c, cnext st' c = cnext st c) by (intros c; unfold cnext; rewrite Hl; reflexivity).
     apply (holder_step st st' a p p' Iv Hp Hh); try assumption.
@@ -366,7 +431,7 @@ Section Step.
     p_rem p' = r -> p_ph p' = ph' -> p_sess p' = p_sess p -> p_cnt p' = p_cnt p ->
     cont_ok st' p' -> busy_on p' c -> (forall c', busy_on p c' -> c' = c) ->
     Inv st'.
-  Proof.
+  Proof using All.
     intros Hh Hh' Hth Hprocs Hl Hn Hf Hmu Htm Htc Hfk Hsid Hseq Hlt Hr' Hph' Hse Hcn Hco Hbz Hbo.
     assert (Hc : forall c', c' <> c -> cnext st' c' = cnext st c').
     { intros c' Hne. unfold cnext. rewrite Hl. apply snoc_same_kind_other. congruence. }
@@ -395,7 +460,7 @@ Section Step.
     p_rem p' = r -> p_ph p' = ph' -> p_sess p' = p_sess p -> p_cnt p' = p_cnt p ->
     cont_ok st' p' -> (forall c', busy_on p c' -> c' = c) ->
     Inv st'.
-  Proof.
+  Proof using All.
     intros Hh Hh' Hth Hprocs Hl Hn Hf Hmu Htm Htc Hv Hlt Hr' Hph' Hse Hcn Hco Hbo.
     assert (Hc : forall c', cnext st' c' = cnext st c') by (intros c'; unfold cnext; rewrite Hl; reflexivity).
     apply (holder_step st st' a p p' Iv Hp Hh); try assumption.
